@@ -25,7 +25,7 @@ var Schemas = []string{
 var Values = []string{
 	`null`, `true`, `false`, `0`, `1`, `-1`, `1.5`, `0.5`, `2`, `255`, `256`, `9007199254740992`, `9223372036854775808`, `-9223372036854775808`, `18446744073709551616`,
 	`""`, `"a"`, `"ab"`, "\"é\"", `"12"`,
-	`[]`, `[1]`, `[1,2]`, `[1,"a"]`, `[1,1]`, `[[1]]`, `[1,1.5]`, `["a","a"]`, `[null]`, `[{"a":1}]`,
+	`[]`, `[1]`, `[1,2]`, `[1,"a"]`, `[1,1]`, `[[1]]`, `[1,1.5]`, `["a","a"]`, `[null]`, `[{"a":1}]`, `[256,256]`, `[65536,65536]`, `[9223372036854775808,9223372036854775808]`, `[-9223372036854775808,-9223372036854775808]`, `[1.5,1.5]`, `[0,0]`, `[{"a":1},{"a":1}]`, `[[256],[256]]`,
 	`{}`, `{"a":1}`, `{"a":1,"b":2}`, `{"a":"x"}`, `{"a":[1]}`, `{"a":{"b":1}}`, `{"ab":1}`, `{"b":1}`, `{"a":null}`, `{"a":1.5}`,
 }
 
